@@ -1,3 +1,5 @@
+pub mod bld;
+pub mod rw;
 pub mod name;
 pub mod adj;
 pub mod conc;
@@ -19,6 +21,8 @@ pub fn dispatch(t: &[&str]) -> String {
         "sv.seq" | "sv.corr" => sv::run(t),
         "adj.run" => adj::run(t),
         "name.resolve" => name::run(t),
+        "rw.run" | "rw.raw" | "rw.hermes" => rw::run(t),
+        "bld.seq" | "smap.seq" => bld::run(t),
         _ => "bad-op".into(),
     }
 }
